@@ -9,7 +9,10 @@
     footer, CRC-32, sections index, field records, section records, postings records,
     chunk tables, freq/norm entries, location entries, doc-value framing + snappy,
     stored-field index / meta / snappy data, 1-hit FST values, synonym codes, the
-    synonym term table, the vector id -> doc map.
+    synonym term table, the vector id -> doc map.  (snappy and the doc-value framing
+    are decoded by linear array-based decoders below and, on blocks up to
+    `crossCheckMax` bytes, cross-checked against `Codec.snappyDecode` /
+    `Codec.contentDecode`, the list-based ones the codec proofs are about.)
   What is taken from an oracle (the harness decodes it with the real library and offers
   it as a `Blob`; this decoder computes the blob's offset and length itself and looks it
   up - a miss is a failure, so the harness cannot steer the result):
@@ -18,7 +21,8 @@
 
   ------------------------------------------------------------------------------------
   LAYOUT FACTS NOT STATED IN zap.md (each resolved by reading the pinned WRITER code;
-  the reader code was not consulted).  "README" = /repo/README.md.
+  the reader code - segment.go load*, posting.go, docvalues.go - was not consulted for
+  the layout).  "README" = /repo/README.md.
   ------------------------------------------------------------------------------------
    F1  Footer is 52 bytes, big-endian: D# u64 | SF u64 | F u64 | S u64 | FDV u64 | CF u32 |
        V u32 | CC u32.  zap.md draws S; README's footer list omits it.  In v16 the
@@ -95,6 +99,10 @@
        address left behind by the previous build that used the pooled `interim`.  The
        shipped reader never follows it (F16).  Here: for D# = 0 the section addresses of
        the record at offset 0 are not followed (name and framing still are).
+   F18 Synonym ids are file-local names: one counter per batch over ALL thesauri in New
+       (`sidNext`), one per field in Merge.  The comparison with the model is therefore
+       modulo renaming (codes are resolved to (synonym term, doc) through the file's own
+       table; ids must be unique in a table).
    F19 Normalisation (decided with the model's owner): Merge skips every input thesaurus
        whose FST is empty (vellum hands out no iterator for an empty FST), so re-merging
        a segment whose thesaurus lost all its terms DROPS the synonym section, while the
@@ -106,10 +114,6 @@
        indexes[0]) although the index is built for the LAST one; the model records the
        last.  They differ only if inputs disagree on `opt` for one field, which no
        generator produces (zapx assumes it cannot happen).
-   F18 Synonym ids are file-local names: one counter per batch over ALL thesauri in New
-       (`sidNext`), one per field in Merge.  The comparison with the model is therefore
-       modulo renaming (codes are resolved to (synonym term, doc) through the file's own
-       table; ids must be unique in a table).
 -/
 import ZapModel.Types
 import ZapModel.Codec
